@@ -54,6 +54,7 @@ var stampRe = regexp.MustCompile(`\d{4}-\d\d-\d\d \d\d:\d\d:\d\d`)
 var (
 	crashMu sync.Mutex
 	crashes int
+	shrinks int
 	env     *lib.Env
 	evalsMu sync.Mutex
 	evals   int
@@ -67,18 +68,24 @@ func countEval(n int) {
 
 // runCLI runs the CLI on path in a fresh, empty working directory.
 func runCLI(path string, mask bool) (runOut, string) {
-	cwd, err := os.MkdirTemp(filepath.Join(env.Scratch, "cwd"), "r")
-	if err != nil {
+	// the same (fresh, empty) working directory for every run of one program: its name can
+	// reach diagnostics (relative include paths), so it must not vary between the K runs
+	cwd := filepath.Join(env.Scratch, "cwd", "r-"+lib.Hash(path))
+	_ = os.RemoveAll(cwd)
+	if err := os.MkdirAll(cwd, 0o755); err != nil {
 		return runOut{}, "cannot create cwd: " + err.Error()
 	}
 	defer os.RemoveAll(cwd)
-	r := lib.RunProc(lib.ProcSpec{Argv: []string{env.Origami(), path}, Dir: cwd, Timeout: 120 * time.Second})
+	r := lib.RunProc(lib.ProcSpec{Argv: []string{env.Origami(), path}, Dir: cwd, Timeout: 120 * time.Second, MaxOut: 32 << 20})
 	countEval(1)
 	if r.Err != nil {
 		return runOut{}, "cannot start: " + r.Err.Error()
 	}
 	if r.TimedOut {
 		return runOut{}, "watchdog fired"
+	}
+	if len(r.Stdout) >= 32<<20 || len(r.Stderr) >= 32<<20 {
+		return runOut{}, "output exceeds the capture limit"
 	}
 	o := runOut{stdout: r.Stdout, stderr: r.Stderr, exit: r.Exit, sig: r.Signal}
 	if crash, _ := lib.GoCrash(r); crash {
@@ -539,11 +546,18 @@ func reportNondet(p *detProg, outs []runOut, unstableStore map[int]bool, unstabl
 		w := describe(what)
 		env.Violation("nondet:corpus:"+p.name, w, "php", replay(w))
 	case "gen":
-		q := gen.Shrink(p.genp, func(g *gen.Program) bool {
-			path := writeProg("shrink", p.name, gen.Source(g))
-			o, inc := runK(&detProg{path: path}, K)
-			return inc == "" && !allSame(o)
-		}, 40)
+		q := p.genp
+		crashMu.Lock()
+		shrinks++
+		doShrink := shrinks <= 3 // minimising costs up to 40 x K runs: only for the first few
+		crashMu.Unlock()
+		if doShrink {
+			q = gen.Shrink(p.genp, func(g *gen.Program) bool {
+				path := writeProg("shrink", p.name, gen.Source(g))
+				o, inc := runK(&detProg{path: path}, K)
+				return inc == "" && !allSame(o)
+			}, 40)
+		}
 		src := gen.Source(q)
 		w := describe(what)
 		env.Violation("nondet:gen:"+lib.Hash(src), w, "php", []byte(src+"\n/* ---- verif C20 determinism (minimised generated program) ----\n"+w+"\n*/\n"))
